@@ -72,7 +72,10 @@ pub(crate) fn cbor_decode_serialize_mode<'b, Ctx>(
     _d: &mut minicbor::decode::Decoder<'b>,
     _ctx: &mut Ctx,
 ) -> Result<Arc<RwLock<SerializeMode>>, minicbor::decode::Error> {
-    Ok(Arc::new(RwLock::new(SerializeMode::NoInclude)))
+    // a store that was just loaded is not in the middle of writing a stand-off file: it is in
+    // the same state as a freshly built one (see Config::default()), otherwise stand-off
+    // resources and datasets would be serialised inline instead of via @include
+    Ok(Arc::new(RwLock::new(SerializeMode::AllowInclude)))
 }
 
 pub(crate) fn cbor_encode_serialize_mode<Ctx, W: minicbor::encode::Write>(
